@@ -472,7 +472,7 @@ class WsgiApplication(HttpBase):
                                                                  start_response)
 
         assert p_ctx.out_object is not None
-        g = next(iter(p_ctx.out_object))
+        g = next(iter(p_ctx.out_object), None)
         is_generator = len(p_ctx.out_object) == 1 and isgenerator(g)
 
         # if the out_object is a generator function, this hack makes the user
@@ -480,11 +480,16 @@ class WsgiApplication(HttpBase):
         # whatnot before calling start_response. It's important to run this
         # here before serialization as the user function can also set output
         # protocol. Is there a better way?
-        if is_generator:
-            first_obj = next(g)
-            p_ctx.out_object = ( chain((first_obj,), g), )
-
         try:
+            if is_generator:
+                try:
+                    first_obj = next(g)
+                    p_ctx.out_object = ( chain((first_obj,), g), )
+
+                except StopIteration:
+                    # the generator returned without yielding anything
+                    p_ctx.out_object = ( (), )
+
             self.get_out_string(p_ctx)
 
         except Exception as e:
